@@ -140,16 +140,21 @@ func checkFailedLockWhileHeld(c failedLockCase) *vt.Fail {
 			}
 			done <- err
 		}()
+		premise := true
 		select {
 		case err := <-done:
-			if err == nil {
-				os.Rename(away, d)
-				unlock()
-				return vt.Failf("HARNESS-lock-succeeded", "Lock in a directory that is not there succeeded")
-			}
-		case <-time.After(5 * time.Second):
+			premise = err != nil
+		case <-time.After(time.Second):
+			premise = false
+		}
+		if !premise {
+			// The attempt did not fail: it went through (an implementation may create the missing directory) or it is
+			// waiting for the Mutex, which is held - both are within the property. Nothing to observe here, then.
+			os.RemoveAll(d)
 			os.Rename(away, d)
-			return vt.Failf("blocked-with-no-holder", "a Lock that cannot open its file did not return within 5s")
+			unlock()
+			rec.Class("failed-lock-while-held:attempt-did-not-fail", 1)
+			return nil
 		}
 	}
 	os.Rename(away, d)
